@@ -156,6 +156,12 @@ pub fn check_record(c: &RecCase, ctx: &mut Ctx) {
         Some(other) => ctx.fail(format!("from_record_kind_mismatch/{}", kind_name(kind)), format!("encoded as {}, from_record gives {other:?}", kind_name(kind))),
         None => {}
     }
+    // the kind query used by the node ("is this record a chunk?") is a reading of the same tag
+    match ctx.no_panic("RecordHeader::is_record_of_type_chunk", || RecordHeader::is_record_of_type_chunk(&rec)) {
+        Some(Ok(is_chunk)) if is_chunk == (kind == RecordKind::Chunk) => {}
+        Some(other) => ctx.fail(format!("is_record_of_type_chunk_wrong/{}", kind_name(kind)), format!("encoded as {}, is_record_of_type_chunk gives {other:?}", kind_name(kind))),
+        None => {}
+    }
     // the generic judgement (frozen tag accepted, re-encode stable, chunk address recomputed)
     let mut f = Findings::default();
     if ctx.no_panic("decoders", || judge_record_bytes(&enc, kind, &mut f)).is_some() {
